@@ -242,7 +242,20 @@ def run(ctx):
     w = [c for c in f.calls("BinaryEncoder::write")]
     okw = False
     if len(w) == 1:
-        parts = flatten_sum(arg_nodes(w[0])[0])
+        a0 = arg_nodes(w[0])[0]
+        parts = flatten_sum(a0)
+        c0 = core(a0)
+        if len(parts) == 1 and c0 is not None and c0.get("k") == "call" and c0.get("fk") in prog.functions:
+            # the word may be packed by a small static helper: substitute the arguments for its parameters
+            h = prog.functions[c0["fk"]]
+            rets = [x for x in h.nodes if x.get("k") == "return"]
+            if len(rets) == 1 and len(h.params) == len(arg_nodes(c0)):
+                env = {p_["n"]: expr_str(core(a_)) for p_, a_ in zip(h.params, arg_nodes(c0))}
+                inner = flatten_sum(rets[0].child("e"))
+                parts = {}
+                for k_, sh_ in inner.items():
+                    root = k_.split(".")[0].split("->")[0]
+                    parts[(env.get(root, root) + k_[len(root):]) if root in env else k_] = sh_
         okw = parts == {"dbKeyID.value": 2, "dependency.singleUse": 1, "dependency.orderOnly": 0}
     r.check(okw, "setRuleResult|word-layout", "", "dependency word packed as %s" % (parts if len(w) == 1 else "?"), f)
     # wherever the dependency blob is decoded (in the readers themselves or in a helper they share)
